@@ -441,7 +441,7 @@ def run(tier, seed):
     else:
         texts = exhaustive_texts(alpha, ops, 1)
         texts += exhaustive_texts(["0", "1", "2", "3", "-1", "1.5", "0x10", "1|3"], ops, 2)
-        n_random = 40000
+        n_random = 150000
         run.exhaustive = False
     texts = [c[0] for c in CALIBRATION] + texts
     for res in shard_map(work, split(texts, procs * 4), (seed, "texts", 0)):
